@@ -43,3 +43,39 @@ pub fn emit(name: &'static str, args: &[u64]) {
 		sink(name, args);
 	}
 }
+
+/// Raw structural dump of one column (read-only), for structural invariant checking.
+#[derive(Debug, Default, Clone)]
+pub struct TableDump {
+	pub tier: u8,
+	pub entry_size: u16,
+	pub multipart: bool,
+	pub ref_counted: bool,
+	pub exists: bool,
+	/// in-memory view used by planning
+	pub mem_filled: u64,
+	pub mem_last_removed: u64,
+	/// header stored in slot 0 of the file
+	pub file_filled: u64,
+	pub file_last_removed: u64,
+	/// first bytes (at most 64) of the slots 1..file_filled
+	pub slots: Vec<Vec<u8>>,
+}
+
+#[derive(Debug, Default, Clone)]
+pub struct IndexDump {
+	pub bits: u8,
+	/// (chunk, sub index, partial key, size tier, offset)
+	pub entries: Vec<(u64, u64, u64, u8, u64)>,
+}
+
+#[derive(Debug, Default, Clone)]
+pub struct ColumnDump {
+	pub tables: Vec<TableDump>,
+	/// current index first, then the generations queued for reindexing
+	pub indexes: Vec<IndexDump>,
+	/// (index bits, (address, count)) of every ref-count table, current first
+	pub ref_counts: Vec<(u8, Vec<(u64, u64)>)>,
+	/// btree columns: (root address, depth)
+	pub btree: Option<(u64, u32)>,
+}
